@@ -543,8 +543,40 @@ fn reobserve(args: &[String]) -> i32 {
     0
 }
 
+/// development aid: print what the DOM reports for one document given on the command line
+fn probe(args: &[String]) -> i32 {
+    let text = arg_value(args, "--text").unwrap_or("<r/>");
+    for expanded in [false, true] {
+        let r = guarded(|| {
+            let parsed = xml_dom::XmlDocument::from_raw_with_context(
+                text,
+                xml_dom::Context::from_text_expanded(expanded),
+            );
+            match parsed {
+                Ok((rest, doc)) => {
+                    let root = doc.document_element().unwrap();
+                    let mut out = format!("rest={:?}", rest);
+                    if let Some(m) = root.attributes() {
+                        for a in m.iter() {
+                            out.push_str(&format!(" @{}={:?}/{}", a.name(), a.value(), a.specified()));
+                        }
+                    }
+                    for k in root.child_nodes().iter() {
+                        out.push_str(&format!(" [{:?} {:?}]", k.node_type(), k.node_value()));
+                    }
+                    out
+                }
+                Err(e) => format!("error {}", e),
+            }
+        });
+        println!("expanded={} {:?}", expanded, r);
+    }
+    0
+}
+
 pub fn main(sub: &str, args: &[String]) -> i32 {
     match sub {
+        "doc-attr-probe" => probe(args),
         "doc-attr-replay" => replay(args),
         "doc-attr-record" => record(args),
         "doc-attr-observe" => reobserve(args),
